@@ -1,0 +1,16 @@
+//go:build verif
+
+package encoding
+
+// VerifBucketHeaderRoundTrip marshals a bucket header for the given layout
+// and unmarshals it again for the bucket the ID falls into. It returns the
+// decoded ID, tag and length, and the number of bytes written and read.
+// Verification hook, only built with -tags verif.
+func VerifBucketHeaderRoundTrip(id uint64, tag Tag, length int, layout Uint64MapLayout) (uint64, Tag, int, int, int) {
+	var buffer [maxUint64MapBucketHeaderLength]byte
+	in := uint64MapBucketHeader{ID: id, Tag: tag, Length: length}
+	written := in.Marshal(buffer[0:], &layout)
+	var out uint64MapBucketHeader
+	read := out.Unmarshal(buffer[0:], layout.BucketForID(id), &layout)
+	return out.ID, out.Tag, out.Length, written, read
+}
